@@ -481,7 +481,7 @@ def rule_profile_diff(prop, ctx_repo_dev, repo_rel, ls_factory):
              "detail": next((x["detail"] for x in sts if x["detail"]), None)}
         if s["fails"]:
             R.violation(key, "%s in %s fails in debug builds and wraps silently in release: %s" % (what, p, s["detail"]), loc_of(b, bb), p)
-        elif s["unknown"] and lensim_discharges(repo, ls_factory, lscache, b, bb, callers):
+        elif s["unknown"] and bytes_discharge(repo, ls_factory, lscache, b, bb, callers):
             R.ok(sample={"site": loc_of(b, bb), "fn": p, "kind": what, "decided_by": "value-set analysis over the complete length partition"})
         elif s["unknown"]:
             R.violation(key, "dev-only %s assertion in %s is not bounded by the interval analysis (%s): debug and release may differ" % (what, p, s["detail"]), loc_of(b, bb), p)
@@ -517,7 +517,7 @@ def rule_profile_diff(prop, ctx_repo_dev, repo_rel, ls_factory):
     return R.finish()
 
 
-def lensim_discharges(repo, ls_factory, cache, b, bb, callers=None):
+def bytes_discharge(repo, ls_factory, cache, b, bb, callers=None):
     """Is the assertion decided safe for every abstract input (length, first byte)? Byte-provenance abstract execution over
     the complete length partition of the function itself when it takes the bytes, otherwise (a private helper whose
     arguments are fixed by its callers, e.g. a const-generic padding routine) of every byte-level function it is reached from."""
